@@ -541,6 +541,7 @@ struct Visitor : RecursiveASTVisitor<Visitor> {
     for (auto *F : R->fields()) {
       json::Object X; X["name"] = F->getNameAsString(); X["t"] = D.typeId(F->getType());
       X["ty"] = F->getType().getAsString(D.PP);
+      X["cty"] = F->getType().getCanonicalType().getAsString(D.PP);
       X["kind"] = Dumper::scalarKind(F->getType());
       X["init"] = F->hasInClassInitializer();
       X["line"] = D.lineOf(F->getLocation());
